@@ -317,6 +317,10 @@ pub struct Interpreter {
     /// Module environment for active execution (needed for finalizing exports on completion)
     pub(crate) active_module_env: Option<Gc<JsObject>>,
 
+    /// Scope chain, number of environment roots and trace-stack depth at the start of the
+    /// run in progress. A run that fails or is abandoned is wound back to this.
+    pub(crate) active_base: Option<(Gc<JsObject>, usize, usize)>,
+
     // ═══════════════════════════════════════════════════════════════════════════
     // Module System
     // ═══════════════════════════════════════════════════════════════════════════
@@ -511,6 +515,7 @@ impl Interpreter {
             active_module_path: None,
             active_saved_env: None,
             active_module_env: None,
+            active_base: None,
             // Module system
             internal_modules: FxHashMap::default(),
             internal_module_cache: FxHashMap::default(),
@@ -925,6 +930,8 @@ impl Interpreter {
         use crate::compiler::Compiler;
         use bytecode_vm::BytecodeVM;
 
+        self.begin_run();
+
         // Set main module path if this is the entry point
         if self.main_module_path.is_none() {
             self.main_module_path = module_path.clone();
@@ -988,6 +995,12 @@ impl Interpreter {
             {
                 self.finalize_module_exports(path.clone(), module_env);
             }
+        }
+
+        match &result {
+            Err(_) => self.abort_active_execution(),
+            Ok(StepResult::Complete(_)) => self.active_base = None,
+            Ok(_) => {}
         }
 
         result
@@ -1299,7 +1312,13 @@ impl Interpreter {
             }
             VmStepResult::Terminal(vm_result) => {
                 // Terminal state - process and clear active execution state
-                let result = self.process_vm_result(*vm_result)?;
+                let result = match self.process_vm_result(*vm_result) {
+                    Ok(result) => result,
+                    Err(err) => {
+                        self.abort_active_execution();
+                        return Err(err);
+                    }
+                };
 
                 // If not suspended (i.e., actually complete), finalize
                 if matches!(result, crate::StepResult::Complete(_)) {
@@ -1377,8 +1396,33 @@ impl Interpreter {
         }
     }
 
+    /// Remember where a new run starts; a previous run that never finished is discarded first
+    fn begin_run(&mut self) {
+        self.abort_active_execution();
+        self.active_base = Some((
+            self.env.cheap_clone(),
+            self.env_guards.len(),
+            self.call_stack.len(),
+        ));
+    }
+
+    /// Discard the run in progress: drop its VM and wind the scope chain, the
+    /// environment roots and the trace stack back to where the run started
+    fn abort_active_execution(&mut self) {
+        if let Some((env, env_guards, call_stack)) = self.active_base.take() {
+            self.env = env;
+            self.env_guards.truncate(env_guards);
+            self.call_stack.truncate(call_stack);
+            self.active_vm = None;
+            self.active_saved_env = None;
+            self.active_module_env = None;
+            self.active_module_path = None;
+        }
+    }
+
     /// Finalize active execution (restore environment, finalize exports)
     fn finalize_active_execution(&mut self) {
+        self.active_base = None;
         // Take state
         let saved_env = self.active_saved_env.take();
         let module_env = self.active_module_env.take();
@@ -1407,6 +1451,8 @@ impl Interpreter {
     ) -> Result<StepResult, JsError> {
         use crate::compiler::Compiler;
         use bytecode_vm::BytecodeVM;
+
+        self.begin_run();
 
         // Set main module path if this is the entry point
         if self.main_module_path.is_none() {
